@@ -669,6 +669,20 @@ pub fn prior_cfg(rng: &mut Rng, is128: bool) -> Cfg {
 
 pub fn make_prior(rng: &mut Rng, is128: bool, kind: Prior) -> (Machine, bool) {
     let mut m = Machine::new(prior_cfg(rng, is128));
+    // part of "what the machine was doing before": an earlier snapshot may have attached or detached
+    // devices whatever the emulator was constructed with (SZX AMXM / AY chunks)
+    if kind != Prior::Fresh && rng.chance(1, 3) {
+        let mut a = Abs::random(rng, is128);
+        a.latch &= !0x20;
+        a.r.iff1 = false;
+        a.r.iff2 = false;
+        a.r.pc = 0x8000;
+        a.poke_bytes(0x8000, &[0x18, 0xFE]);
+        a.mouse = Some(rng.bool());
+        a.ay = Some(AyState { flags: if is128 { 0 } else { *rng.pick(&[0u8, 2]) }, cur: rng.u8() & 15, regs: [0; 16] });
+        let bytes = write_szx(&a, &SzxOpts::plain(), rng);
+        let _ = load_szx(&mut m, &bytes);
+    }
     let ok = make_hostile(&mut m, rng, kind);
     (m, ok)
 }
